@@ -43,6 +43,9 @@ for m in seeds:
     h = m.get('history', '')
     if h.startswith('detected'):
         first += 1
+    if not m.get('confirmed', True):
+        t.append('| %s | %s | %s; now: no longer breaks the property on the repaired tree |' % (m['seed_id'], m.get('needs_to_manifest', ''), h))
+        continue
     t.append('| %s | %s | %s; now: %s (`%s`) |' % (m['seed_id'], m.get('needs_to_manifest', ''), h, ran.get('verdict', '?'), (ran.get('first_kinds') or ['?'])[0].split(' ')[0].replace('kind=', '')))
 t.append('')
 t.append('%d seeded changes; %d were caught by the checks as they stood, the others exposed blind spots of the workloads (not of the oracles) and led to the strengthenings named in the table; '
